@@ -489,6 +489,8 @@ def _vdr_summary(res):
 def _cmp_c17(kind, case, impl, model):
     from check import canon, first_diff
     if kind != "vdr":
+        if isinstance(model, dict) and "premises" in model:
+            model = {k: v for k, v in model.items() if k != "premises"}
         return _cmp_transform(kind, case, impl, model)
     if not isinstance(model, dict) or model.get("class") != "ok":
         return None if canon(impl) == canon(model) else first_diff(canon(impl), canon(model))
@@ -528,7 +530,7 @@ def _c17_property(r):
     return None
 
 PROPS["C17"] = {
-    "theorem_modules": ["Sidetree.Props.C17", "Sidetree.Props.C17Vdr", "Sidetree.Props.C17Reports"],
+    "theorem_modules": ["Sidetree.Props.C17", "Sidetree.Props.C17Vdr", "Sidetree.Props.C17Reports", "Sidetree.Props.C17Process"],
     "prescribes": "Sidetree.Did.resolve / processOperation (Props.C17)",
     "obligations": [{"name": "Shape_Did", "facts": "module:Did"}, {"name": "C17_defaultProtocol", "facts": ["defaultProtocol"]}] + _PARSER_OBL +
                    [{"name": "Shape_Transformer", "facts": "module:Transformer"}, {"name": "Shape_Client", "facts": "module:Client"}],
@@ -536,7 +538,7 @@ PROPS["C17"] = {
     "compare": _cmp_c17,
     "property_check": _c17_property,
     "property_on_ood": True,
-    "label": lambda r: ("vdr/" + r["model"].get("class", "?") + "/keys=" + str(len(set(_frag(e["id"]) for n in ("authentication", "assertionMethod", "capabilityDelegation", "capabilityInvocation", "keyAgreement") for e in r["case"]["doc"][n])))) if r["kind"] == "vdr" else _lab(r, r["model"].get("class")),
+    "label": lambda r: ("vdr/" + r["model"].get("class", "?") + "/keys=" + str(len(set(_frag(e["id"]) for n in ("authentication", "assertionMethod", "capabilityDelegation", "capabilityInvocation", "keyAgreement") for e in r["case"]["doc"][n])))) if r["kind"] == "vdr" else _lab(r, r["model"].get("class")) + ("" if "premises" not in r["model"] else ("/theorem-premises-hold" if r["model"]["premises"] else "/theorem-premises-not-met")),
     "nontrivial": lambda r: r["model"].get("class") == "ok",
     "shape": lambda r: r["case"].get("did") or r["case"].get("req") or r["case"].get("spec") or r["case"].get("doc"),
     "rule": "create requests that fit the handler's fixed protocol (all patch kinds it allows, three namespaces) turned into long-form DIDs, then: unchanged; every kind of single-character "
@@ -550,7 +552,9 @@ PROPS["C17"] = {
                   "where the request is accepted by the parser under the handler's protocol and the suffix is the sha2-256 model multihash of its suffix data (via C03); the id and "
                   "equivalent id of the result; an offline resolution reports published = false and, in its method metadata, exactly the recovery commitment and anchor origin of the suffix data "
                   "embedded in the DID and the update commitment of the embedded delta; the result is the transformation of a state whose document is the composer's result for the embedded "
-                  "delta's patches on the empty document, that delta being valid and hash-bound to the embedded suffix data (resolve_is_what_was_created); the model's protocol value equals the literal in config/protocol.go. 'Resolves to a document equivalent to the one supplied' and "
+                  "delta's patches on the empty document, that delta being valid and hash-bound to the embedded suffix data (resolve_is_what_was_created); the DID ProcessOperation returns resolves on the same handler to the very result it returned, for every namespace containing a colon and every create request whose "
+                  "re-marshalled form has no numbers (process_result_resolves: base64url, UTF-8, JSON reader and re-marshalling round trips; the driver evaluates these premises on every "
+                  "process case of the stream); the model's protocol value equals the literal in config/protocol.go. 'Resolves to a document equivalent to the one supplied' and "
                   "'creation is deterministic' rest on the correspondence (ProcessOperation then ResolveDocument compared in full; VDR.Create repeated).",
     "level_note": "Trusted: Lean kernel; extractor; harness. did-go's document (un)marshalling used by VDR.Create/Read is not modelled: the VDR stream checks the round trip with an oracle "
                   "written in the harness (key ids, purposes, services, also-known-as survive; same input gives the same DID).",
